@@ -29,6 +29,7 @@ Clause ==
   ELSE IF T.error # "" THEN
        (IF T.error = "ValueError" /\ \E o \in Outcomes(SP, C, Cfg) : o.err THEN "" ELSE "Error:" \o T.error)
   ELSE IF Len(T.rounds) # 2 THEN "Rounds"
+  ELSE IF \E i \in 1..Len(T.rounds) : T.rounds[i].rn # i - 1 THEN "RoundNumber"        \* the stored round number is the position of the state
   ELSE LET e == T.rounds[2]
            match == {o \in Outcomes(SP, C, Cfg) : ~o.err /\ o.elected = SetSeq(e.elected)} IN
        IF match = {} THEN "Winners"
